@@ -1190,7 +1190,7 @@ func lawsOK(r sixResult) string {
 
 func checkC18(c *Ctx) {
 	c.Res.Rule = "for each ordered literal kind (integer, decimal, string, version): an attribute value and 2-3 literals from boundary pools (all pairs of the pools in thorough, random beyond); the six single-comparison rules are evaluated by the engine on the same object and the exported Operation methods are called directly with the same operands; laws: trichotomy, ne = not eq, le = lt or eq, ge = gt or eq, monotonicity in the literal, all-false when not comparable; no reference interpreter; non-trivial = distinct (attribute, literal pair) on which the attribute is comparable (some operator true)"
-	n := c.budget(8000, 360000)
+	n := c.budget(16000, 360000)
 	litOrder := func(kind string, a, b Lit) (int, bool) {
 		switch kind {
 		case "long":
